@@ -578,6 +578,16 @@ func (stb *StarTreeBuilder) creatEnc(wip *WipBlock) error {
 		stb.wipRecNumToColEnc[colNum] = utils.ResizeSlice(stb.wipRecNumToColEnc[colNum], int(numRecs))
 
 		cwip := wip.colWips[colName]
+		if cwip == nil || cwip.cbufidx == 0 {
+			// The column has no value in this block, so nothing was backfilled for it either:
+			// every record of the block is null for this column. Without this the encodings
+			// left over from the previous block would be used.
+			enc := stb.setColValEnc(colNum, sutils.VALTYPE_ENC_BACKFILL[:])
+			for recNum := uint16(0); recNum < numRecs; recNum++ {
+				stb.wipRecNumToColEnc[colNum][recNum] = enc
+			}
+			continue
+		}
 		deData := cwip.deData
 		if deData.deCount < wipCardLimit {
 			for rawKey, indices := range deData.deMap {
